@@ -66,10 +66,18 @@ FLOAT_BOUNDARY = [0.0, -0.0, 1.0, -1.0, 0.1, 0.2, 0.3, 1.1, 2.675, 1e15 - 1, 999
                   1e-290, 1e290, 123456789012345e275, 1e-5, 1e-7, 1e16 / 10, 12.0, 52.0, 1234.5, 0.5, 1e22, 1.234e21, 4.35, 0.07, 1e100]
 
 
+# different strings that are canonically equivalent (equal after Unicode normalisation), or equal ignoring case: a store that
+# keys strings by anything but the string itself merges them
+EQUIVALENT = ["caf\u00e9", "cafe\u0301", "\u212b", "\u00c5", "A\u030a", "\u2126", "\u03a9", "\ufb01n", "fin", "Stra\u00dfe", "STRASSE", "strasse",
+              "\u1e9b\u0323", "\u1e9b\u0323".encode().decode(), "\u017f\u0323\u0307", "x\u0323\u0307", "x\u0307\u0323", "abc", "ABC", "abc ", " abc", "a\u00a0b", "a b"]
+
+
 def rand_string(rng: random.Random) -> str:
     c = rng.random()
-    if c < .35:
+    if c < .27:
         return rng.choice(STRINGS)
+    if c < .35:
+        return rng.choice(EQUIVALENT)
     if c < .4:
         return "long:" + "".join(rng.choice("abc déf\n") for _ in range(rng.choice([5000, 100_000])))
     n = rng.randint(1, 12)
